@@ -22,7 +22,7 @@ fn next_up(x: f32, k: i64) -> f32 {
 
 pub fn run(tier: Tier) -> Report {
     let rep = Report::new("C19", tier);
-    rep.set_rule("complete grids: (1) ltwh->universal->ltwh over magnitudes^4; (2) polygon/area/centre/radius of every box of the size x angle menu; (3) every coordinate x base x delta x both argument orders for both box types; (4) normalize_angle over f32 bit patterns in [-1000,1000] (thorough: every pattern; quick: stride + neighbourhoods of multiples of 2*pi). A case is non-trivial when it is not the identity comparison / zero angle.");
+    rep.set_rule("complete grids: (1) ltwh->universal->ltwh over magnitudes^4; (2) polygon/area/centre/radius of every box of the size x angle menu; (2b) every sequence of <= 4 (thorough 5) operations from {gen_vertices, rotate_mut x2, set xc / yc / height / aspect, angle=None, clone, rotate} on 3 start boxes: the polygon cached by gen_vertices() on a rotated box and the result of get_vertices() are the polygon of the box as it is at that moment; (3) every coordinate x base x delta x both argument orders for both box types; (4) normalize_angle over f32 bit patterns in [-1000,1000] (thorough: every pattern; quick: stride + neighbourhoods of multiples of 2*pi). A case is non-trivial when it is not the identity comparison / zero angle.");
     rep.assume("reference arithmetic in f64; decisions asserted only outside a rounding margin");
 
     // (1) round trip
@@ -199,6 +199,108 @@ pub fn run(tier: Tier) -> Report {
     }
     rep.add(n2, n2, n2, n2);
     rep.distinct_count(n2);
+
+    // (2b) the cached polygon: every sequence of in-place changes and (re)generations; right after
+    // gen_vertices() on a rotated box the cached polygon is the polygon of the box as it is now, and
+    // get_vertices() always is
+    {
+        #[derive(Clone, Copy, Debug)]
+        enum COp {
+            Gen,
+            RotMut(f32),
+            Xc(f32),
+            Yc(f32),
+            Height(f32),
+            Aspect(f32),
+            AngleNone,
+            CloneBox,
+            Rotate(f32),
+        }
+        let alpha = [COp::Gen, COp::RotMut(0.7), COp::RotMut(-0.3), COp::Xc(50.0), COp::Yc(-2.0), COp::Height(3.0), COp::Aspect(0.25), COp::AngleNone, COp::CloneBox, COp::Rotate(1.1)];
+        let starts = [Universal2DBox::new(5.0, 5.0, Some(0.4), 0.5, 10.0), Universal2DBox::new(0.0, 0.0, None, 2.0, 4.0), Universal2DBox::new(-3.5, 1e3, Some(0.0), 1.0, 1.0)];
+        let depth = tier.pick(4usize, 5usize);
+        let same = |poly: &geo::Polygon<f64>, b: &Universal2DBox| -> bool {
+            let pts: Vec<(f64, f64)> = poly.exterior().0.iter().map(|c| (c.x, c.y)).collect();
+            let r = RBox::from_u(b);
+            let tol = 1e-9 * (r.radius() + (b.xc as f64).abs().max((b.yc as f64).abs())).max(1.0);
+            pts.len() == 5 && r.corners().iter().all(|e| pts[..4].iter().any(|p| geom::dist(*p, *e) <= tol))
+        };
+        let mut n3 = 0u64;
+        let mut regen_after_change = 0u64;
+        for (si, st) in starts.iter().enumerate() {
+            let total = (0..=depth).map(|d| alpha.len().pow(d as u32)).sum::<usize>();
+            let _ = total;
+            for d in 1..=depth {
+                for code in 0..alpha.len().pow(d as u32) {
+                    let mut k = code;
+                    let mut b = st.clone();
+                    let mut word = vec![];
+                    let mut dirty_since_gen = false;
+                    let mut had_cache = false;
+                    for _ in 0..d {
+                        let op = alpha[k % alpha.len()];
+                        k /= alpha.len();
+                        word.push(op);
+                        match op {
+                            COp::Gen => {
+                                b.gen_vertices();
+                                if b.angle.is_some() {
+                                    if had_cache && dirty_since_gen {
+                                        regen_after_change += 1;
+                                    }
+                                    let ok = b.get_cached_vertices().as_ref().map_or(false, |p| same(p, &b));
+                                    if !ok {
+                                        rep.violation(Violation { key: "polygon/cache-after-gen_vertices".into(), what: format!("after {word:?} on start box {si} the cached polygon {:?} is not the polygon of the box {b:?}", b.get_cached_vertices()), replay: json!({"part":"polygon-cache","start":si,"ops":format!("{word:?}")}) });
+                                    }
+                                    had_cache = true;
+                                    dirty_since_gen = false;
+                                }
+                            }
+                            COp::RotMut(a) => {
+                                b.rotate_mut(a);
+                                dirty_since_gen = true;
+                            }
+                            COp::Xc(v) => {
+                                b.xc = v;
+                                dirty_since_gen = true;
+                            }
+                            COp::Yc(v) => {
+                                b.yc = v;
+                                dirty_since_gen = true;
+                            }
+                            COp::Height(v) => {
+                                b.height = v;
+                                dirty_since_gen = true;
+                            }
+                            COp::Aspect(v) => {
+                                b.aspect = v;
+                                dirty_since_gen = true;
+                            }
+                            COp::AngleNone => {
+                                b.angle = None;
+                                dirty_since_gen = true;
+                            }
+                            COp::CloneBox => {
+                                b = b.clone();
+                                had_cache = b.get_cached_vertices().is_some();
+                            }
+                            COp::Rotate(a) => {
+                                b = b.rotate(a);
+                                had_cache = b.get_cached_vertices().is_some();
+                                dirty_since_gen = true;
+                            }
+                        }
+                        if !same(&b.get_vertices(), &b) {
+                            rep.violation(Violation { key: "polygon/get_vertices-after-changes".into(), what: format!("after {word:?} on start box {si} get_vertices() is not the polygon of {b:?}"), replay: json!({"part":"polygon-cache","start":si,"ops":format!("{word:?}")}) });
+                        }
+                    }
+                    n3 += 1;
+                }
+            }
+        }
+        rep.add(n3, n3, n3, n3);
+        rep.extra("polygon_cache_sequences", json!({"sequences":n3,"depth":depth,"alphabet":alpha.len(),"regenerations_after_an_in_place_change":regen_after_change}));
+    }
 
     // (3) equality
     let bases: Vec<f32> = vec![0.25, 1.0, 3.0, 100.0, 1e4];
